@@ -246,6 +246,21 @@ def run(ctx):
     import roles as _roles
     _roles.rule_R_ROLE(ctx, modules=('enum_narsese::term', 'lexical::term', 'api::data_structure::term'))
     _roles.rule_A_NAMES(ctx, modules=('enum_narsese::term', 'lexical::term', 'api::data_structure::term'))
+    import lskel as _lskel
+    _lskel.rule_L_SKELETON(ctx, which=('term',), floor=10)
+    # base_num: "atoms and unary one, binary two" (and the variable-arity classes above two)
+    bn = [it for p_, it in f.hir.items() if it["name"] == "base_num" and "term_capacity" in p_]
+    if len(bn) != 1:
+        raise AnchorMissing("TermCapacity::base_num")
+    ctx.fn(bn[0])
+    got_bn = {}
+    for v, arm, pat in hir.arms_by_variant(hir.top_match(bn[0])):
+        b_ = strip(arm["body"])
+        got_bn[v] = b_["lit"]["v"] if b_["k"] == "Lit" else None
+    want_bn = {"Atom": 1, "Unary": 1, "BinaryVec": 2, "BinarySet": 2}
+    ctx.ob("K-PRED", "TermCapacity::base_num: Atom = Unary = 1, BinaryVec = BinarySet = 2, Vec = Set > 2",
+           all(got_bn.get(k_) == v_ for k_, v_ in want_bn.items()) and isinstance(got_bn.get("Vec"), int) and got_bn.get("Vec") == got_bn.get("Set") and got_bn["Vec"] > 2,
+           "%s" % got_bn)
     ctx.undecided = ["nothing value-dependent remains except set iteration order, which the property treats as a set"]
     ctx.assumptions = ["Vec::insert(i, x) places x at position i", "iterating a Vec preserves order"]
     ctx.trusted = ["rustc HIR", "mirfacts driver", "python rule layer"]
